@@ -72,22 +72,22 @@ type tclient struct {
 }
 
 type tableWorld struct {
-	c       *Ctx
-	cfg     tableCfg
-	eng     pt.TableEngine
-	be      *faultBackend
-	clients map[string]*tclient
-	order   []string
-	seq     int64
-	mon     *tableMon
-	adminSt *simrt.Stream
-	netSt   *simrt.Stream
-	blind   blindRec
+	c                                    *Ctx
+	cfg                                  tableCfg
+	eng                                  pt.TableEngine
+	be                                   *faultBackend
+	clients                              map[string]*tclient
+	order                                []string
+	seq                                  int64
+	mon                                  *tableMon
+	adminSt                              *simrt.Stream
+	netSt                                *simrt.Stream
+	blind                                blindRec
 	closedAtMs, releasedAtMs, pausedAtMs int64
-	ledgerInFlight int
-	memberInFlight int
-	anyInFlight    int
-	unit           int64
+	ledgerInFlight                       int
+	memberInFlight                       int
+	anyInFlight                          int
+	unit                                 int64
 }
 
 type blindRec struct {
@@ -349,7 +349,9 @@ func (w *tableWorld) hookCallbacks() {
 		w.mon.onSnapshot(snap, w.seq)
 		if w.cfg.slowSub && w.inFaultWindow() && w.netSt.Chance(1, 40) {
 			c.Fault("F8_slow_subscriber")
-			simrt.Sleep(0, time.Duration(1+w.netSt.Draw(3000))*time.Millisecond)
+			d := int64(1 + w.netSt.Draw(3000))
+			w.mon.slowness(d)
+			simrt.Sleep(0, time.Duration(d)*time.Millisecond)
 		}
 		w.deliver(snap)
 	})
@@ -542,7 +544,17 @@ func (w *tableWorld) react(cl *tclient, t *pt.Table) {
 	if len(p.AllowedActions) == 0 {
 		return
 	}
-	key := fmt.Sprintf("%s|%s|%s|%d|%v|%d", gs.GameID, gs.Status.CurrentEvent, gs.Status.Round, gs.Status.CurrentPlayer, p.AllowedActions, gs.Status.CurrentWager)
+	la := ""
+	if gs.Status.LastAction != nil {
+		la = fmt.Sprintf("%d:%s:%d", gs.Status.LastAction.Source, gs.Status.LastAction.Type, gs.Status.LastAction.Value)
+	}
+	acted := 0
+	for _, q := range gs.Players {
+		if q.Acted {
+			acted++
+		}
+	}
+	key := fmt.Sprintf("%s|%s|%s|%d|%v|%d|%s|%d|%d", gs.GameID, gs.Status.CurrentEvent, gs.Status.Round, gs.Status.CurrentPlayer, p.AllowedActions, gs.Status.CurrentWager, la, acted, gs.Status.CurrentRoundPot)
 	if key == cl.lastKey && !(w.cfg.netFaults && w.inFaultWindow() && cl.st.Chance(1, 10)) {
 		return
 	}
@@ -584,7 +596,15 @@ func (w *tableWorld) react(cl *tclient, t *pt.Table) {
 		}
 		w.think(cl)
 		a, amt := w.chooseWager(cl.st, gs, p)
-		w.act(cl.id, a, amt, "client")
+		if err := w.act(cl.id, a, amt, "client"); err != nil && (a == "bet" || a == "raise") {
+			// a refused amount: fall back to an action that needs none, so that the player keeps responding
+			for _, fb := range []string{"check", "call", "fold", "allin"} {
+				if hasStr(p.AllowedActions, fb) {
+					w.act(cl.id, fb, 0, "client")
+					break
+				}
+			}
+		}
 	}
 }
 
@@ -677,6 +697,10 @@ func isWager(a string) bool {
 
 // act submits one game action. who is "client" (normal) or "rogue".
 func (w *tableWorld) act(id, action string, amt int64, who string) error {
+	return w.actN(id, action, amt, who, 0)
+}
+
+func (w *tableWorld) actN(id, action string, amt int64, who string, depth int) error {
 	c := w.c
 	if c.Stopped() {
 		return nil
@@ -700,10 +724,17 @@ func (w *tableWorld) act(id, action string, amt int64, who string) error {
 	if !atomic {
 		c.Inconc("not_atomic")
 		evKey = "?"
+		w.mon.markNotAtomic(gc)
 	} else if judged {
 		w.mon.judgeAction(&j, err, who)
 	}
 	w.mon.recordAction(id, action, amt, err, gc, evKey)
+	if err != nil && err.Error() == errInjected.Error() && !judged && who == "client" && depth < 4 {
+		// the caller got the backend's error: the same action can be submitted again (C13)
+		w.anyInFlight--
+		c.Logf("ACT %s %s %d (%s) -> %v ; retrying", id, action, amt, who, err)
+		return w.actN(id, action, amt, who, depth+1)
+	}
 	w.anyInFlight--
 	c.Logf("ACT %s %s %d (%s) -> %v", id, action, amt, who, err)
 	return err
@@ -716,6 +747,7 @@ func (w *tableWorld) doReserve(who string, jp pt.JoinPlayer, rebuy bool) error {
 	var err error
 	var before *memberSnap
 	var after *memberSnap
+	w.mon.topupInvoke(jp.PlayerID, jp.RedeemChips)
 	atomic := simrt.Atomic(func() {
 		before = w.mon.memberBefore()
 		err = w.eng.PlayerReserve(jp)
@@ -739,6 +771,7 @@ func (w *tableWorld) doRedeem(id string, chips int64) error {
 	w.ledgerInFlight++
 	var err error
 	var before, after *memberSnap
+	w.mon.topupInvoke(id, chips)
 	atomic := simrt.Atomic(func() {
 		before = w.mon.memberBefore()
 		err = w.eng.PlayerRedeemChips(pt.JoinPlayer{PlayerID: id, RedeemChips: chips})
